@@ -942,4 +942,114 @@ example : StepsOk {} [.listen 0 .main [], .publish { id := "a", topic := "t", pr
   simp only [StepsOk, StepOk, NoDeadListen, true_and, and_true]
   decide
 
+/-! ## the stopping worker -/
+
+/-- generalisation of `foldl_reject_clears`: what stays in flight under the stopped consumer is what was not in its
+    local queue -/
+theorem foldl_reject_leaves (now : Int) (cid : Nat) (P : String → Prop) (l : List Msg) : ∀ (s : S),
+    (∀ c ∈ s.consumers, c.1 ≠ cid) → (∀ e ∈ s.unacked, e.1 = cid → (∃ m ∈ l, m.id = e.2.2.id) ∨ P e.2.2.id) →
+    (∀ c ∈ (l.foldl (fun acc m => settle (reject acc m.id) now) s).consumers, c.1 ≠ cid) ∧
+    ∀ e ∈ (l.foldl (fun acc m => settle (reject acc m.id) now) s).unacked, e.1 = cid → P e.2.2.id := by
+  induction l with
+  | nil =>
+    intro s hc hu
+    refine ⟨hc, fun e he hcid => ?_⟩
+    rcases hu e he hcid with ⟨m, hm, _⟩ | h
+    · cases hm
+    · exact h
+  | cons m rest ih =>
+    intro s hc hu
+    simp only [List.foldl_cons]
+    have hk := settle_onlyKnown (reject s m.id) now
+    apply ih
+    · intro c hcm
+      obtain ⟨c0, hc0, h0⟩ := hk.2 c hcm
+      rw [reject_consumers] at hc0
+      rw [← h0]; exact hc c0 hc0
+    · intro e he hcid
+      rcases hk.1 e he with h1 | ⟨c0, hc0, h0⟩
+      · rw [reject_unacked] at h1
+        obtain ⟨hm1, hm2⟩ := List.mem_filter.mp h1
+        rcases hu e hm1 hcid with ⟨m', hm', hid'⟩ | hp
+        · rcases List.mem_cons.mp hm' with h2 | h2
+          · subst h2; simp [hid'] at hm2
+          · exact Or.inl ⟨m', h2, hid'⟩
+        · exact Or.inr hp
+      · rw [reject_consumers] at hc0
+        exact absurd (h0.trans hcid) (hc c0 hc0)
+
+/-- the stopping worker on RabbitMQ (`_Runner._run_consumer` on cancellation, after `fix:` dfed4c8): the consumer is
+    finished, then the runner rejects what it still has in hand -/
+def stopWorker (s : S) (cid : Nat) (now : Int) (inHand : List String) : S :=
+  inHand.foldl (fun acc id => reject acc id) (finish s cid now)
+
+theorem foldl_reject_ids (l : List String) : ∀ (s : S), Inv s →
+    (∀ id, total (l.foldl (fun acc i => reject acc i) s) id = total s id) ∧ Inv (l.foldl (fun acc i => reject acc i) s) ∧
+    (l.foldl (fun acc i => reject acc i) s).unacked = s.unacked.filter fun x => !(l.any fun i => x.2.2.id == i) := by
+  induction l with
+  | nil =>
+    intro s h
+    refine ⟨fun _ => rfl, h, ?_⟩
+    simp only [List.foldl_nil, List.any_nil, Bool.not_false]
+    exact (List.filter_eq_self.mpr (fun _ _ => rfl)).symm
+  | cons i rest ih =>
+    intro s h
+    simp only [List.foldl_cons]
+    obtain ⟨h1, h2, h3⟩ := ih _ (reject_inv s i h)
+    refine ⟨fun id => by rw [h1 id, reject_total s i id h], h2, ?_⟩
+    rw [h3, reject_unacked, List.filter_filter]
+    apply List.filter_congr
+    intro x _
+    simp only [List.any_cons, Bool.not_or]
+    rw [Bool.and_comm]
+
+/-- `rabbit_stop_conserves`: whatever the stopping worker holds (a local queue of any length, any messages in hand), the
+    stop sequence changes the place of no message -/
+theorem rabbit_stop_conserves (s : S) (cid : Nat) (now : Int) (inHand : List String) (h : Inv s) :
+    (∀ id, total (stopWorker s cid now inHand) id = total s id) ∧ Inv (stopWorker s cid now inHand) := by
+  obtain ⟨f1, f2⟩ := finish_conserves s cid now h
+  obtain ⟨g1, g2, _⟩ := foldl_reject_ids inHand (finish s cid now) f2
+  exact ⟨fun id => by rw [stopWorker, g1 id, f1 id], g2⟩
+
+/-- `rabbit_stop_clears`: when everything the worker's consumer holds un-acknowledged is either in its local queue or in
+    the runner's hand, nothing stays in flight under it after the stop sequence -/
+theorem rabbit_stop_clears (s : S) (cid : Nat) (now : Int) (inHand : List String) (c : Cons)
+    (hc : s.consumers.find? (·.1 == cid) = some (cid, c))
+    (hheld : ∀ e ∈ s.unacked, e.1 = cid → (∃ m ∈ c.loc, m.id = e.2.2.id) ∨ e.2.2.id ∈ inHand) :
+    ∀ e ∈ (stopWorker s cid now inHand).unacked, e.1 ≠ cid := by
+  intro e he hcid
+  have hfin : ∀ e ∈ (finish s cid now).unacked, e.1 = cid → e.2.2.id ∈ inHand := by
+    simp only [finish, hc]
+    refine (foldl_reject_leaves now cid (fun i => i ∈ inHand) c.loc
+      ({ s with consumers := s.consumers.filter (·.1 != cid) } : S) ?_ hheld).2
+    intro x hx
+    have := (List.mem_filter.mp hx).2
+    simpa using this
+  -- the second phase filters the ids in hand
+  have hsecond : (stopWorker s cid now inHand).unacked =
+      (finish s cid now).unacked.filter fun x => !(inHand.any fun i => x.2.2.id == i) := by
+    -- `foldl_reject_ids` needs no invariant for the unacked part; re-prove it directly
+    have : ∀ (l : List String) (t : S), (l.foldl (fun acc i => reject acc i) t).unacked =
+        t.unacked.filter fun x => !(l.any fun i => x.2.2.id == i) := by
+      intro l
+      induction l with
+      | nil =>
+        intro t
+        simp only [List.foldl_nil, List.any_nil, Bool.not_false]
+        exact (List.filter_eq_self.mpr (fun _ _ => rfl)).symm
+      | cons i rest ih =>
+        intro t
+        simp only [List.foldl_cons]
+        rw [ih, reject_unacked, List.filter_filter]
+        apply List.filter_congr
+        intro x _
+        simp only [List.any_cons, Bool.not_or]
+        rw [Bool.and_comm]
+    exact this inHand _
+  rw [hsecond] at he
+  obtain ⟨hm, hn⟩ := List.mem_filter.mp he
+  have hin := hfin e hm hcid
+  have : (inHand.any fun i => e.2.2.id == i) = true := List.any_eq_true.mpr ⟨_, hin, by simp⟩
+  simp [this] at hn
+
 end Repid.RabbitProofs
